@@ -72,7 +72,7 @@ def compare_totals(ctx, pr, label, cases):
 
 def run(ctx):
     q = ctx.quick
-    r = vlib.tlc(ctx, "TcpConn", "MC_TcpConn_C15.cfg", workers="auto", timeout=2400)
+    r = vlib.tlc(ctx, "TcpConn", "MC_TcpConn_C15.cfg" if q else "MC_TcpConn_C15Thorough.cfg", workers="auto", timeout=2400)
     ctx.add_tlc(r, "exhaustive: every outcome class, metrics language / status / counters")
     if not r.ok:
         raise vlib.Inconclusive("model finding in TcpConn.tla / MC_TcpConn_C15.cfg: %s" % r.violated)
@@ -80,10 +80,11 @@ def run(ctx):
     rng = random.Random(ctx.seed)
     behs = tc.gen(ctx, "Gen_TcpConn_C15.cfg", 2500 if q else 20000, seed=ctx.seed)
     pick = tc.select(behs, 200 if q else 2000, lambda f: (f["hs"], f["tk"], f["bad"], f["rst"], f["dial"], min(f["trecv"] + f["crecv"], 2)), rng)
-    cases, _, pr, hung = tc.run_family(ctx, "C15_", pick, label="c15-outcomes", timeout_ms=400, unit_ms=200, par=16, prom=True)
+    cases, _, pr, hung = tc.run_family(ctx, "C15_", pick, label="c15-outcomes", par=8, prom=True, **tc.TIMED)
     if hung:
         raise vlib.Inconclusive("handlers still running after the script ended: %s" % ctx.notes[-1])
     compare_totals(ctx, pr, "per-scenario", cases)
+    tc.mech_pass(ctx, cases, pick, label="c15-outcomes")
     outcomes = {}
     for c in cases:
         if c["mlog"] and c["mlog"][-1]["m"] == "Closed":
@@ -93,7 +94,7 @@ def run(ctx):
     missing = need - set(outcomes)
     if not any(k.startswith("ERR_ADDRESS") for k in outcomes):
         missing.add("ERR_ADDRESS_*")
-    if missing:
+    if missing and not ctx.violations:
         raise vlib.Inconclusive("outcome classes never reached on the real code: %s (seen %s)" % (sorted(missing), outcomes))
     ctx.cov["distinct_nontrivial"] += len(pick)
     ctx.cov["self_test_rejected"] = tc.self_test(ctx, cases, tc.REAL_SLACK)
